@@ -166,6 +166,8 @@ def gen(seed, run, tier='quick'):
         base = convs[ci]['base']
         others = [j for j in range(n_cur) if j != base]
         n = rng.randrange(1, len(others) + 1)
+        if rng.random() < 0.06:
+            return []       # nothing to store - still an update of a kind
         specs = []
         for j in rng.sample(others, n):
             um = rng.choice([1, 1, 1, 10, 100, 1000])
@@ -604,9 +606,11 @@ def execute(h):
                          for s in op[3]
                          if s[0][0] % n_cur !=
                          cfg['convs'][ci]['base'] % n_cur]
-                if not specs:
+                if not specs and op[3]:
                     log.append([i, 'skipped'])
                     continue
+                if not specs:
+                    bump(probes, 'update_without_rate_specs')
                 lib_specs = []
                 for (cur, how), amt, um in specs:
                     cobj = curs[cur] if how == 'obj' else curs[cur].symbol
@@ -710,8 +714,9 @@ ASSUMPTIONS = [
     "not claimed): expected rates are built with the library's own "
     "constructor from the spec the model selects",
     "only documented spellings of a validity are generated as valid and "
-    "only clearly invalid ones as invalid; empty rate_specs, rate specs "
-    "naming the base currency or unknown symbols are not generated (C16)",
+    "only clearly invalid ones as invalid; rate specs naming the base "
+    "currency or unknown symbols are not generated (C16); an update "
+    "without rate specs counts as an update (it fixes the kind)",
     "decimalfp pure-Python implementation (see DESIGN.md 2.11)",
 ]
 REAL = ["quantity.money.MoneyConverter, ExchangeRate, Money, Currency from "
